@@ -214,8 +214,9 @@ func main() {
 			for _, a := range c.Alt {
 				c2 := c
 				c2.Exp = a.Exp
-				if a.Exp != nil && a.Exp.Cls == "fuel" {
-					// the specification with the recorded deviation ran out of fuel: this case cannot be decided
+				if a.Exp != nil && (a.Exp.Cls == "fuel" || a.Exp.Open) {
+					// the specification with the recorded deviation ran out of fuel, or passed a point the statements leave
+					// open (e.g. finally on a control transfer): this case cannot be decided
 					sum.Known["undecided:"+a.Key]++
 					explained = true
 					break
